@@ -780,11 +780,19 @@ class GraphBuilder(BuilderBase):
     ):
         if isinstance(function, ir.Function):
             graph = function.graph
+            declared_attributes = function.attributes
         elif isinstance(function, onnxscript.OnnxFunction):
             # TODO(justinchuby): Reason about support for outer-scope values in inlined function bodies.
             graph = function.graph().clone(allow_outer_scope_values=True)
+            declared_attributes = function.function_ir.attributes
         else:
             raise TypeError("Function must be an ir.Function or onnxscript.OnnxFunction")
+        # Same meaning as a call node: attributes the caller omits take the function's
+        # declared default, and plain Python values are accepted.
+        attributes: dict[str, ir.Attr] = {
+            name: attr for name, attr in declared_attributes.items() if attr.value is not None
+        }
+        attributes.update({attr.name: attr for attr in ir.convenience.convert_attributes(kwargs)})
         if _outputs is not None:
             if len(_outputs) != len(graph.outputs):
                 raise ValueError(
@@ -804,7 +812,7 @@ class GraphBuilder(BuilderBase):
 
         count = self.graph.num_nodes()
         node_name_prefix = self._qualify_node_name(f"{function.name}_node_{count}/")
-        nodes, outputs = _inliner.instantiate(graph, args, kwargs, prefix=node_name_prefix)
+        nodes, outputs = _inliner.instantiate(graph, args, attributes, prefix=node_name_prefix)
 
         # Track final output values so we can rename them separately.
         # The inliner prefixes all names, which would prevent name-based lookup
